@@ -9,6 +9,7 @@ import (
 	"crypto/ecdsa"
 	"crypto/elliptic"
 	"crypto/rand"
+	"crypto/rsa"
 	"crypto/tls"
 	"crypto/x509"
 	"crypto/x509/pkix"
@@ -62,12 +63,21 @@ func present(phost, target string) (*x509.Certificate, error) {
 
 type Step map[string]any
 
-func makeCA(dir string) (string, string, *x509.CertPool) {
+// makeCA writes a throw-away CA: an ECDSA P-256 key or (as the project's README tells operators to generate) an RSA-2048 key
+func makeCA(dir string, useRSA bool) (string, string, *x509.CertPool) {
+	if useRSA {
+		priv, _ := rsa.GenerateKey(rand.Reader, 2048)
+		return writeCA(dir, priv, &priv.PublicKey)
+	}
 	priv, _ := ecdsa.GenerateKey(elliptic.P256(), rand.Reader)
+	return writeCA(dir, priv, &priv.PublicKey)
+}
+
+func writeCA(dir string, priv any, pub any) (string, string, *x509.CertPool) {
 	serial, _ := rand.Int(rand.Reader, new(big.Int).Lsh(big.NewInt(1), 100))
 	tmpl := x509.Certificate{SerialNumber: serial, Subject: pkix.Name{Organization: []string{"verif-ca"}}, NotBefore: time.Now().Add(-time.Hour),
 		NotAfter: time.Now().Add(24 * time.Hour), KeyUsage: x509.KeyUsageCertSign | x509.KeyUsageDigitalSignature, BasicConstraintsValid: true, IsCA: true}
-	der, _ := x509.CreateCertificate(rand.Reader, &tmpl, &tmpl, &priv.PublicKey, priv)
+	der, _ := x509.CreateCertificate(rand.Reader, &tmpl, &tmpl, pub, priv)
 	cf, kf := dir+"/ca.crt", dir+"/ca.key"
 	os.WriteFile(cf, pem.EncodeToMemory(&pem.Block{Type: "CERTIFICATE", Bytes: der}), 0o600)
 	kb, _ := x509.MarshalPKCS8PrivateKey(priv)
@@ -96,7 +106,12 @@ func main() {
 	enc := json.NewEncoder(f)
 	dir, _ := os.Getwd()
 	for bi, steps := range input.Behaviours {
-		cf, kf, pool := makeCA(dir)
+		// the CA's key type is part of the behaviour (first step {"a":"ca","rsa":true}), so that a replay uses the same one
+		useRSA := false
+		if len(steps) > 0 && steps[0]["a"] == "ca" {
+			useRSA, _ = steps[0]["rsa"].(bool)
+		}
+		cf, kf, pool := makeCA(dir, useRSA)
 		ca, err := certs.NewPrivateCA(cf, kf)
 		if err != nil {
 			fmt.Fprintln(os.Stderr, err)
@@ -116,7 +131,7 @@ func main() {
 		phost := psrv.Listener.Addr().String()
 		index := map[string]int{} // certificate serial -> small index
 		last := map[string]*tls.Certificate{}
-		enc.Encode(map[string]any{"b": bi + 1, "a": "reset"})
+		enc.Encode(map[string]any{"b": bi + 1, "a": "reset", "ca_rsa": useRSA})
 		idx := func(c *tls.Certificate) int {
 			if c == nil || c.Leaf == nil {
 				return 0 // not a certificate at all
@@ -171,6 +186,9 @@ func main() {
 		}
 		for _, st := range steps {
 			a, _ := st["a"].(string)
+			if a == "ca" {
+				continue
+			}
 			hid, _ := st["host"].(string)
 			target := input.Targets[hid]
 			line := map[string]any{"b": bi + 1, "a": a, "host": hid, "target": target}
